@@ -106,7 +106,38 @@ TObs ==
   /\ UNCHANGED <<owner, nodes, blobs, edges, foreign>>
   /\ l' = l + 1
 
-Next == TReset \/ TStep \/ TObs
+(***************************************************************************)
+(* crashobs: a process-death or power-loss image taken after one I/O step  *)
+(* of the operation that follows (a transaction creating nodes), opened by *)
+(* the real recovery code and read back.  The content must be the state    *)
+(* before the operation or the state after it, whole (C18 "stays readable  *)
+(* and correct after reopen" at the moment the node table moves).          *)
+(***************************************************************************)
+TCrash ==
+  /\ l <= Len(Rec) /\ Rec[l].ev = "crashobs"
+  /\ LET e == Rec[l]
+         n == Len(nodes)
+         k == IF e.op = "nodes" THEN e.st.n ELSE 0
+         post == IF e.op = "nodes" THEN nodes \o [i \in 1..k |-> <<e.first + i - 1, e.st.label>>] ELSE nodes
+         Exp(sq, i) == <<i, sq[i + 1][1], sq[i + 1][2], sq[i + 1][1], BlobLen(i), BlobSum(i)>>
+         isPre == Len(e.nodes) = n /\ \A j \in 1..n : e.nodes[j] = Exp(nodes, j - 1)
+         isPost == Len(e.nodes) = n + k /\ \A j \in 1..(n + k) : e.nodes[j] = Exp(post, j - 1)
+         expEdges == {<<"o", <<x[1], x[2]>>>> : x \in edges} \cup {<<"i", <<x[1], x[2]>>>> : x \in edges}
+     IN /\ (IF e.open = "ok" THEN TRUE
+            ELSE Emit([prop |-> "C18", at |-> l, kind |-> "crash-image-does-not-open", image |-> e.kind, site |-> e.site, io_step |-> e.io_step, detail |-> e.open]))
+        /\ (IF e.open # "ok" \/ Len(e.errs) = 0 THEN TRUE
+            ELSE Emit([prop |-> "C18", at |-> l, kind |-> "crash-image-read-failed", image |-> e.kind, site |-> e.site, io_step |-> e.io_step,
+                       errs |-> SubSeq(e.errs, 1, IF Len(e.errs) > 5 THEN 5 ELSE Len(e.errs))]))
+        /\ (IF e.open # "ok" \/ Len(e.errs) > 0 \/ isPre \/ isPost THEN TRUE
+            ELSE Emit([prop |-> "C18", at |-> l, kind |-> "crash-image-content", image |-> e.kind, site |-> e.site, io_step |-> e.io_step,
+                       got_count |-> Len(e.nodes), before |-> n, after |-> n + k, after_foreign_write |-> foreign]))
+        /\ (IF e.open # "ok" \/ Len(e.errs) > 0 \/ ToSet(e.edges) = expEdges THEN TRUE
+            ELSE Emit([prop |-> "C18", at |-> l, kind |-> "crash-image-content", image |-> e.kind, site |-> e.site, io_step |-> e.io_step,
+                       what |-> "relationships", after_foreign_write |-> foreign]))
+  /\ UNCHANGED <<owner, nodes, blobs, edges, foreign>>
+  /\ l' = l + 1
+
+Next == TReset \/ TStep \/ TObs \/ TCrash
 Spec == Init /\ [][Next]_vars
 TraceAccepted ==
   LET d == TLCGet("stats").diameter IN
